@@ -9,7 +9,8 @@ import copy
 
 import numpy as np
 
-from ..core import Interp, Hooks, Violation, close, maxerr, Digester
+from ..core import Interp, Hooks, Violation, close, maxerr, Digester, HarnessError
+from .. import public, fresh
 from ..models import dense
 from .base import Scenario, solo_events, callers_of
 
@@ -37,7 +38,52 @@ class PurityHooks(Hooks):
     def before(self, it, i, ev):
         if not self.snap:
             self.snap = self._snapshot(it)
+        self.pending_fresh = None
+        if ev.get('t', {}).get('fresh'):
+            # public-state description of the arguments as they are now (taken before the call)
+            try:
+                dargs = [public.describe(it.L, it.resolve(x)) for x in ev.get('a', [])]
+                dkw = [(k, public.describe(it.L, it.resolve(x))) for k, x in sorted(ev.get('k', {}).items())]
+                self.pending_fresh = (dargs, dkw)
+            except public.Unsupported:
+                it.probe('fresh_unsupported')
         self.rng0 = _rng_state()
+
+    def _judge_fresh(self, it, i, ev, out):
+        """C10.fresh: the same call on public-state clones of its arguments, in a process that has executed nothing else."""
+        dargs, dkw = self.pending_fresh
+        self.pending_fresh = None
+        fn = ev['fn']
+        if not out.ok and 'read-only' in str(out.exc):
+            return                      # the read-only medium of a frozen run is judged by C10.freeze
+        srv = fresh.get()
+        if srv is None:
+            raise HarnessError('run asks for C10.fresh but this process has no pristine evaluator')
+        try:
+            mine = ('ok', public.describe(it.L, out.value)) if out.ok else ('exc', type(out.exc).__name__)
+        except public.Unsupported:
+            it.probe('fresh_unsupported')
+            return
+        if not out.ok and isinstance(out.exc, MemoryError):
+            return
+        ans = srv.ask(fn, dargs, dkw)
+        if ans[0] in ('unsupported', 'unfaithful'):
+            it.probe('fresh_' + ans[0])
+            return
+        it.probe('check:fresh')
+        it.fault('fresh_process')
+        if ans[0] != mine[0]:
+            it.violate('C10.fresh', {'fn': fn}, '%s: %s in this history, %s on clones of the same arguments in a pristine process'
+                       % (fn, mine[0] + (':' + mine[1] if mine[0] == 'exc' else ''), ans[0] + (':' + ans[1] if ans[0] == 'exc' else '')), i)
+        elif ans[0] == 'exc':
+            if ans[1] != mine[1]:
+                it.violate('C10.fresh', {'fn': fn}, '%s raised %s in this history, %s on clones of the same arguments in a pristine process'
+                           % (fn, mine[1], ans[1]), i)
+        else:
+            bad = public.same(mine[1], ans[1])
+            if bad:
+                it.violate('C10.fresh', {'fn': fn}, '%s: the result in this history differs from the result of the same call on clones of '
+                           'the same arguments in a pristine process (%s)' % (fn, bad), i)
 
     def on_dirty(self, it, tid):
         # the caller wrote into an array it owns: everything that views that array legitimately shows the new content
@@ -71,6 +117,8 @@ class PurityHooks(Hooks):
                        '%s changed caller-owned %s (%s, store id %s) although the call is not documented as in-place on it'
                        % (fn, type(it.store[k]).__name__, role, k), i)
         self.snap = new
+        if getattr(self, 'pending_fresh', None) is not None:
+            self._judge_fresh(it, i, ev, out)
         # seeded / deterministic calls never touch the global random state
         if fn not in UNSEEDED and not tag.get('unseeded'):
             it.probe('check:rng')
@@ -223,6 +271,7 @@ def check_same_image(L, wa, wb, pa=None, pb=None):
 class PurityScenario(Scenario):
     name = 'purity'
     prop = 'C10'
+    uses_fresh = True
     quick_runs = 900
     thorough_runs = 90000
     audit_every = 1
@@ -650,11 +699,19 @@ class PurityScenario(Scenario):
             return True
         return all(shared(x) for x in ev.get('a', [])) and all(shared(x) for x in ev.get('k', {}).values())
 
+    @staticmethod
+    def _fresh_ok(ev):
+        """Pure calls (nothing documented as in-place, no unseeded consumer of the global RNG) qualify for C10.fresh."""
+        if 'fn' not in ev or ev.get('inplace') or ev.get('t', {}).get('unseeded'):
+            return False
+        return not (ev['fn'] in ('array', 'setattr', 'np.copy', 'np.add', 'cosmic_rays') or ev['fn'].startswith(('check.', 'h.')))
+
     def interleave(self, rng, progs):
         out = []
         pos = [0] * len(progs)
         done = [[] for _ in progs]
         env_rate = rng.choice([0.05, 0.12, 0.25])
+        fresh_rate = rng.choice([0.0, 0.04, 0.1, 0.25])
         while True:
             runnable = [c for c in range(len(progs)) if pos[c] < len(progs[c])]
             if not runnable:
@@ -667,6 +724,8 @@ class PurityScenario(Scenario):
             ev = progs[c][pos[c]]
             out.append(ev)
             pos[c] += 1
+            if fresh_rate and self._fresh_ok(ev) and rng.random() < fresh_rate:
+                ev.setdefault('t', {})['fresh'] = True
             if self._dup_ok(ev):
                 done[c].append(ev)
             if done[c] and rng.random() < 0.08:
@@ -713,6 +772,8 @@ class PurityScenario(Scenario):
                         if ev.get('t', {}).get('seeded'):
                             order.append({'env': 'rng_seed', 'seed': 12345 + idx})
                         order.append(ev)
+                        if self._fresh_ok(ev) and idx % 3 == 0:
+                            ev.setdefault('t', {})['fresh'] = True
                         if self._dup_ok(ev) and idx % 5 == 0:
                             d = copy.deepcopy(ev)
                             d.setdefault('t', {})['dup_of'] = d['id']
